@@ -7,6 +7,7 @@ import (
 	goerrors "errors"
 	"fmt"
 	"os"
+	"strings"
 
 	"github.com/cockroachdb/errors"
 	"github.com/cockroachdb/errors/errorspb"
@@ -181,6 +182,8 @@ func (env *Env) build(st *Step) error {
 			return &utypes.UIsIdLeaf{Msg: s}
 		case "uSafeMsgLeaf":
 			return &utypes.USafeMsgLeaf{Msg: s, Safe: at(st.A, 1)}
+		case "uSafeDetLeaf":
+			return &utypes.USafeDetLeaf{Msg: s, Det: at(st.A, 1)}
 		case "uProtoLeaf":
 			return &errorspb.TestError{}
 		case "uMaybe":
@@ -212,7 +215,19 @@ func (env *Env) build(st *Step) error {
 	case "WithContextTags":
 		ctx := context.Background()
 		for i := 0; i+1 < len(st.A); i += 2 {
-			ctx = logtags.AddTag(ctx, tok.Str(st.A[i]), tok.Str(st.A[i+1]))
+			v := st.A[i+1]
+			var val interface{}
+			switch {
+			case len(v) == 1 && v[0] == "NILV":
+				val = nil // value-less tag
+			case len(v) >= 1 && v[0] == "SAFEV":
+				val = errors.Safe(tok.Str(v[1:]))
+			case len(v) == 1 && strings.HasPrefix(v[0], "n"):
+				val = tok.Num(v[0])
+			default:
+				val = tok.Str(v)
+			}
+			ctx = logtags.AddTag(ctx, tok.Str(st.A[i]), val)
 		}
 		return errors.WithContextTags(e, ctx)
 	case "WithAssertionFailure":
